@@ -2,7 +2,7 @@
 Driver for C11: reads the cases produced by the Go harness (which ran the REAL InfluxQL node inside a real
 task), and for each case
   * evaluates the SPEC (Kap/Spec/C11.lean) on the inputs and compares it with the OBSERVED output of the real
-    code (difference ⇒ SPECFAIL, or KNOWN when a recorded deviation clause explains exactly that difference);
+    code (difference ⇒ SPECFAIL; there is no recorded deviation: every defect found was repaired);
   * runs the MODEL (Kap/Model/C11.lean) on the same inputs and compares it with the observed output
     (difference ⇒ MISMATCH: the tie between model and code is broken).
 -/
@@ -111,44 +111,6 @@ def renderOut : Out → List String
   | .panic => ["PANIC"]
 
 def renderOuts (os : List Out) : List String := os.flatMap renderOut
-
-/-! ### recorded deviation (known finding `single-point-time`)
-
-`median` of ONE float point and `mode` of ONE point return that point itself from the vendored reducer
-(`if len(a) == 1 { return a }`), time included; with `.usePointTimes()` the emitted point is therefore stamped
-with the point's time although median/mode are aggregates. The clause is exact: the observed output must equal
-the spec output after re-stamping precisely those single-value batches. -/
-def devSinglePointTime (cfg : Cfg) (k : Kind) (xs : List QP) : Bool :=
-  cfg.pointTimes && xs.length == 1 && ((cfg.fn == .median && k == .float) || cfg.fn == .mode)
-
-def devAgg (cfg : Cfg) (gtags : Tags) (t : Int) (pts : List Pt) (emptyRule : Bool) : List Out × Bool :=
-  match Spec.batchKind cfg pts with
-  | some k =>
-    let xs := Spec.valuesOf cfg k pts
-    if devSinglePointTime cfg k xs then
-      match xs with
-      | [x] => (Spec.package cfg gtags x.time (Spec.meaning cfg k xs), true)
-      | _ => (Spec.specAgg cfg gtags t pts emptyRule, false)
-    else (Spec.specAgg cfg gtags t pts emptyRule, false)
-  | none => (Spec.specAgg cfg gtags t pts emptyRule, false)
-
-/-- the spec with the deviation applied; the flag says whether the clause fired anywhere -/
-def specWithDev (cfg : Cfg) (ms : List Msg) : List Out × Bool :=
-  (List.range ms.length).foldl (fun (acc : List Out × Bool) i =>
-    match (ms[i]? : Option Msg) with
-    | some (Msg.batch b) =>
-      if cfg.fn.isTransformation then (acc.1 ++ Spec.specBatch cfg b, acc.2)
-      else let (o, d) := devAgg cfg b.gtags b.tmax b.pts true; (acc.1 ++ o, acc.2 || d)
-    | some (Msg.point g p) =>
-      if cfg.fn.isTransformation then (acc.1 ++ Spec.specAt cfg (ms.take i) (.point g p), acc.2)
-      else
-        let prev := Spec.earlier g (ms.take i)
-        match prev.getLast? with
-        | none => acc
-        | some q => if q.time == p.time then acc else
-          let (o, d) := devAgg cfg g q.time (Spec.lastRun prev) false
-          (acc.1 ++ o, acc.2 || d)
-    | none => acc) ([], false)
 
 /-! ### coverage: which structural cases of the model a case exercises -/
 
@@ -275,10 +237,6 @@ def judge (_id : String) (lines : Array String) : Verdict := Id.run do
   if status != "ok" then
     return .specfail "node-survives" s!"the task ended with status {status}; spec expects {specOut}"
   if observed != specOut then
-    let (devOuts, fired) := specWithDev cfg ms
-    if fired && observed == renderOuts devOuts then
-      if observed != modelOut then return .mismatch s!"model {modelOut} observed {observed}"
-      return .known "single-point-time" s!"median/mode of a single point stamped with the point's time: spec {specOut} observed {observed}"
     return .specfail "aggregate-equals-definition" s!"spec {specOut} observed {observed}"
   -- 2. the tie
   if observed != modelOut then return .mismatch s!"model {modelOut} observed {observed}"
